@@ -9,6 +9,7 @@ import flow
 import gen
 import mockca
 import vlib
+from ext import c12bb
 
 FINISH = dict(
     level="proof",
@@ -46,7 +47,13 @@ FINISH = dict(
          "without nonces on GET. Mode amnesia: accounts forgotten together with a contact / key change (the "
          "update request of synchronize is the one refused), by one CA only, for one account key only, and a "
          "CA refusing every newOrder with accountDoesNotExist (every attempt returns failed). "
-         "accountDoesNotExist answers are counted per account key, so a key the CA still knows has no allowance.",
+         "accountDoesNotExist answers are counted per account key, so a key the CA still knows has no allowance. "
+         "BLACK BOX (py/ext/c12bb.py): the real daemon binary, 3..6 certificates of one account on two and on three "
+         "endpoints (and two accounts crossed over two endpoints), all due at start, started three times on the same "
+         "directories (certificate files removed in between), one CA forgetting the account between two starts; the same "
+         "judge fed from the CA logs: per start and (endpoint, account key) newAccount answered 200/201 <= (1 iff no "
+         "earlier start registered the key there) + that CA's accountDoesNotExist answers about the key, nonces per CA "
+         "distinct over the whole history, every attempt reported its end.",
 )
 
 
@@ -551,6 +558,7 @@ def run(ctx):
     try:
         scs = plan_scenarios(ctx.rng, ctx.quick())
         with concurrent.futures.ThreadPoolExecutor(max_workers=8) as ex:
+            bb = c12bb.start(ctx, ex, root, helper)      # the black-box histories run beside the probe scenarios
             # the longest scenarios (rounds x certificates) are started first
             cost = {"binding": 4, "changes": 3, "amnesia": 4, "forgotten": 2}
             order = sorted(range(len(scs)), key=lambda i: -scs[i]["ncert"] * cost.get(scs[i]["mode"], 1))
@@ -566,6 +574,7 @@ def run(ctx):
             for rnd in rounds:
                 judge_round(ctx, sc, rnd)
         ctx.traces += sum(len(r) for r in all_rounds)
+        c12bb.finish(ctx, bb)
         sc, rounds = scs[0], all_rounds[0]
         ctx.sample({"scenario": {k: sc[k] for k in ("mode", "ncert", "nacc", "nep", "threads", "delay")},
                     "first_lock_events": (rounds[0]["res"].get("events") or [])[:12] if isinstance(rounds[0]["res"], dict) else None})
@@ -581,6 +590,8 @@ def replay(ctx):
     with open(ctx.replay) as f:
         r = json.load(f)
     obj = r.get("replay", r)
+    if "bb" in obj:
+        return c12bb.replay(ctx, obj)
     vlib.build_acmed()
     vlib.build_helper()
     helper = mockca.Helper()
